@@ -109,7 +109,7 @@ func watchdog() {
 	for {
 		time.Sleep(500 * time.Millisecond)
 		st := curStart.Load()
-		if st != 0 && time.Now().UnixNano()-st > int64(10*time.Second) {
+		if st != 0 && time.Now().UnixNano()-st > int64(40*time.Second) { // generous: the check may run on a loaded or slow machine
 			c, _ := curCase.Load().(string)
 			fmt.Fprintf(os.Stderr, "HANG\t%s\n", c)
 			os.Exit(3)
